@@ -211,7 +211,8 @@ def ctor_cases(tier, cfg=None, QD='highp', tag='', simd=False):
     cs = []
     cfg = cfg or CFG_DEF
     TT = ['float', 'int', 'double', 'uint']
-    dests = TT if (tier == 'thorough' and not simd) else ['float', 'int']
+    # the SIMD headers have separate constructor code per element type and register width (float, int / uint, double as two SSE halves or one AVX register)
+    dests = TT if tier == 'thorough' else (['float', 'int', 'double'] if simd else ['float', 'int'])
     for T in dests:
         for L_ in (1, 2, 3, 4):
             vt = G.vec(L_, T, QD)
